@@ -50,8 +50,13 @@ def checkCall (sc : Sc) (cl : Clip) (idx : Nat) (call : String × List Nat × Li
             | none => "drift-model-no-termination"
           -- functional mirror of the matrix fill (`Model/PairwiseFill.lean`, the model of theorem `fill_score_eq_opt`),
           -- evaluated on the same call: its score against the implementation's (drift, never a violation)
-          let ftag := if (Model.PairwiseFill.fill sc cl' x y).score == o.score then "fill-model=impl" else "drift-fill-score"
-          .ok ([mtag, ftag] ++ (if !x.isEmpty && !y.isEmpty && !core.isEmpty then ["nt"] else [])
+          let fsc := (Model.PairwiseFill.fill sc cl' x y).score
+          let ftag := if fsc == o.score then "fill-model=impl" else "drift-fill-score"
+          -- … against the imperative model's score, and whether the call lies inside the hypotheses of the theorem
+          let itag := if fsc == (Model.Pairwise.fill sc cl' x.toArray y.toArray).score then "fill-model=imp-model"
+            else "drift-fill-imp"
+          let htag := if Model.PairwiseFill.thmHyp sc cl' x y then "fill-thm-hyp" else "outside-fill-thm-hyp"
+          .ok ([mtag, ftag, itag, htag] ++ (if !x.isEmpty && !y.isEmpty && !core.isEmpty then ["nt"] else [])
             ++ [mode]
             ++ (if x.isEmpty || y.isEmpty then ["emptyseq"] else [])
             ++ (if hasClip o.ops then ["clipops"] else [])
